@@ -34,7 +34,7 @@ pub fn evals(prop: &str) -> Vec<(&'static str, &'static str)> {
     match prop {
         "C01" => v.extend([("prop_faithful", "prop_faithful"), ("prop_faithful_all", "prop_faithful_all"),
                            ("known_F3_conflation", "known_F3_conflation"), ("corr_teq_trace", "corr_teq_trace"),
-                           ("hyp_coincidence_free", "hyp_coincidence_free")]),
+                           ("hyp_coincidence_free", "hyp_coincidence_free"), ("hyp_cf_reg", "hyp_cf_reg")]),
         "C02" => v.extend([("prop_syn_parses", "prop_syn_parses"), ("prop_closed", "prop_closed")]),
         "C07" => v.extend([("prop_subst", "prop_subst"), ("prop_faithful", "prop_faithful"), ("hyp_has_subst", "hyp_has_subst"), ("known_F5", "known_F5")]),
         "C08" => v.extend([("prop_derives_exact", "prop_derives_exact"), ("hyp_has_recursive", "hyp_has_recursive")]),
